@@ -337,7 +337,7 @@ func (cl *cluster) key() string {
 	fmt.Fprintf(&b, "B %v sticky=%v task=%s\n", bl, cl.stickyREST, cl.taskDesc())
 	var ack []string
 	for id := 1; id <= cl.nWrites; id++ {
-		ack = append(ack, fmt.Sprint(cl.acked[id]))
+		ack = append(ack, fmt.Sprintf("%v@%d", cl.acked[id], blockOf(id)))
 	}
 	if cl.cB != nil {
 		vB := cl.cB.VerifView()
@@ -463,6 +463,13 @@ func (cl *cluster) enabled() []string {
 		case "VerifyAny":
 			for i := range cl.nodes {
 				out = append(out, fmt.Sprintf("VerifyEarly:%d", i))
+			}
+		case "Wb":
+			if (c.MaxWrites > 0 && cl.nWrites >= c.MaxWrites) || len(v.Backends) == 0 {
+				continue
+			}
+			for _, b := range c.WBlocks {
+				out = append(out, fmt.Sprintf("Wb:%d", b))
 			}
 		case "W0", "Sy0":
 			if (t == "W0" && c.MaxWrites > 0 && cl.nWrites >= c.MaxWrites) || len(v.Backends) == 0 {
